@@ -26,12 +26,12 @@ CTX = dict(mode="any", truth=None, calls=[])
 
 
 def bounds(tier):
-    return "staged fits: every ordered %s of modes (diagonal / linear / affine); recovery: White / Color / Affine balance on flat 3x3 and 4x3 swatch sets and a 1x2x3 block (6x3 thorough), ground-truth map and swatches symbolic" % ("pair" if tier == "quick" else "pair and triple")
+    return "staged fits: every ordered %s of modes (diagonal / linear / affine); recovery: White / Color / Affine balance on flat 3x3 and 4x3 swatch sets and a 1x2x3 block (6x3 thorough), ground-truth map and swatches symbolic" % ("pair" if tier == "quick" else "pair, triple and quadruple")
 
 
 def configs(tier):
     out = []
-    for r in ((1, 2) if tier == "quick" else (1, 2, 3)):
+    for r in ((1, 2) if tier == "quick" else (1, 2, 3, 4)):
         for seq in itertools.product(MODES, repeat=r):
             out.append(dict(kind="stages", seq=list(seq)))
     for cls in ("WhiteBalance", "ColorBalance", "AffineBalance"):
